@@ -1876,6 +1876,43 @@ class Explorer:
                     return "stop"
                 return ("fork", alts)
             return None
+        if p == "std::option::Option::<(T, U)>::unzip":
+            # Some((a, b)) -> (Some(a), Some(b));  None -> (None, None)
+            v = args[0]
+            OPT = "std::option::Option"
+            none2 = ("tup", (AGG(OPT, "None"), AGG(OPT, "None")))
+            if v[0] == "agg":
+                if v[2] == "None":
+                    return ret(none2)
+                pr = v[3][0]
+                if pr[0] == "tup" and len(pr[1]) == 2:
+                    return ret(("tup", (AGG(OPT, "Some", (pr[1][0],)), AGG(OPT, "Some", (pr[1][1],)))))
+                if pr[0] == "sym":
+                    return ret(("tup", (AGG(OPT, "Some", (SYM(self.cap(("field", pr[1], 0))),)), AGG(OPT, "Some", (SYM(self.cap(("field", pr[1], 1))),)))))
+                return None
+            if v[0] == "sym":
+                dt = ("discr", v[1], OPT)
+                alts = []
+                for variant in ("Some", "None"):
+                    s2 = st.clone()
+                    if not self.constrain(s2, dt, "eq", self.variant_discr(OPT, variant)):
+                        continue
+                    k2 = self.clone_stack(stack)
+                    if variant == "Some":
+                        pl = ("field", v[1], 0)
+                        val = ("tup", (AGG(OPT, "Some", (SYM(self.cap(("field", pl, 0))),)), AGG(OPT, "Some", (SYM(self.cap(("field", pl, 1))),))))
+                    else:
+                        val = none2
+                    self.write_place(s2, k2[-1], dest, val, site)
+                    if target is None:
+                        continue
+                    k2[-1].bb = target
+                    alts.append((s2, k2))
+                if not alts:
+                    self.finish_path(st, None, "diverge")
+                    return "stop"
+                return ("fork", alts)
+            return None
         if p == "std::option::Option::<std::option::Option<T>>::flatten":
             v = args[0]
             if v[0] == "agg":
@@ -2286,9 +2323,40 @@ def struct_eq(a, b):
     return None
 
 
-def small_private_helper(callee):
+def takes_property_list(callee):
+    return any("mqtt::packet::property::Property" in t and not t.startswith(("fn(", "for<", "unsafe ", "extern "))
+               for t in callee["locals"][1:callee.get("argc", 0) + 1])
+
+
+def small_private_helper(callee, props_ok=False):
+    """A small private function of the packet layer (a predicate / cursor step / length formula factored out of
+    build(), parse() or a serialiser).  Functions that take a property list (validators and their helpers: they iterate)
+    are followed only on request (props_ok) - the rules that evaluate validators do so on concrete lists."""
     return callee.get("kind") in ("Fn", "AssocFn") and not callee.get("pub") and callee["path"].startswith("mqtt::packet::") \
-        and len(callee["blocks"]) <= 30 and not callee.get("impl_trait") and "Builder" not in callee.get("impl_self", "")
+        and len(callee["blocks"]) <= 60 and not callee.get("impl_trait") and "Builder" not in callee.get("impl_self", "") \
+        and (props_ok or not (takes_property_list(callee) and (returns_mqtt_result(callee) or has_back_edge(callee))))
+
+
+def returns_mqtt_result(callee):
+    rt = callee["locals"][0].replace(" ", "")
+    return rt.startswith("std::result::Result<") and rt.endswith(",mqtt::result_code::MqttError>")
+
+
+def has_back_edge(callee):
+    for b in callee["blocks"]:
+        if b.get("cleanup"):
+            continue
+        t = b["term"]
+        tg = []
+        for k in ("t", "targets", "otherwise", "unwind"):
+            v = t.get(k)
+            if isinstance(v, int):
+                tg.append(v)
+            elif isinstance(v, list):
+                tg += [x[1] if isinstance(x, (list, tuple)) else x for x in v if isinstance(x, (int, list, tuple))]
+        if any(isinstance(x, int) and x <= b["i"] for x in tg):
+            return True
+    return False
 
 
 BUILDER_RE = re.compile(r"^mqtt::packet::.*Builder(<.*>)?$")
